@@ -96,6 +96,23 @@ theorem exactly_one_iff_supported :
 example : felixValue felixTable (some [101, 110, 97, 98, 108, 101, 100]) = [69, 110, 97, 98, 108, 101, 100] := by decide
 example : bgpEff bgpTable (some [101, 110, 97, 98, 108, 101, 100]) = bgpDefaultName bgpTable := by decide
 
+/-! ## pool mode strings outside {Never, Always, CrossSubnet} -/
+
+/-- On the three real modes Felix's own classification (mode ≠ Never) and confd's (mode ∈ {Always,
+CrossSubnet}) coincide, so `exactly_one_owner` is a statement about Felix's behaviour there. -/
+theorem felix_class_agrees_on_valid_modes (v : Str) (ipip vxlan : Mode)
+    (h1 : ipip ≠ .other) (h2 : vxlan ≠ .other) :
+    felixProgramsOwnClass felixTable v ipip vxlan = felixPrograms felixTable v ipip vxlan := by
+  cases ipip <;> cases vxlan <;> simp_all [felixProgramsOwnClass, felixPrograms, modeOnFelix, modeOn]
+
+/-- The `other` rows of `exactly_one_owner` are confd's classification applied to both sides, NOT
+Felix's behaviour: with Felix's own classification an unknown ipip mode string is double-programmed
+under the default pairing (Felix counts the pool as IPIP, confd as unencapsulated).  Unreachable: the
+v3→v1 conversion only produces the three modes. -/
+theorem other_mode_row_refuted :
+    felixProgramsOwnClass felixTable (felixValue felixTable none) .other .never = true ∧
+    birdPrograms (bgpPolicy bgpTable none) .other .never = true := by decide
+
 /-! ## Felix's dataplane consumers of the two booleans -/
 
 /-- For every stored setting (any string), every combination of pools present and of the unrelated
